@@ -94,6 +94,46 @@ def check(run, prog, tier):
     from . import memorule
     memorule.check(run, prog, "C15-E6", ['quantarhei.qm.propagators.rdmpropagator.ReducedDensityMatrixPropagator', 'quantarhei.qm.propagators.svpropagator.StateVectorPropagator', 'quantarhei.qm.propagators.poppropagator.PopulationPropagator', 'quantarhei.qm.liouvillespace.heom.KTHierarchy', 'quantarhei.qm.liouvillespace.heom.KTHierarchyPropagator', 'quantarhei.qm.liouvillespace.evolutionsuperoperator.EvolutionSuperOperator', 'quantarhei.qm.liouvillespace.redfieldtensor.RedfieldRelaxationTensor', 'quantarhei.qm.liouvillespace.relaxationtensor.RelaxationTensor', 'quantarhei.builders.opensystem.OpenSystem'],
                    "the result then depends on the history of the object, not only on the inputs of the call")
+    run.rule("C15-E7", "option setters are absolute: what a set* method of a propagator stores is computed from its argument and "
+                       "from state the method does not itself overwrite (setting the same option twice gives the same object)", minimum=8)
+    rule_E7(run, prog)
+
+
+def rule_E7(run, prog):
+    """'Repeating the call with the same inputs returns the same result whatever was computed in between.'  An option setter
+    (set*, e.g. setDtRefinement) whose stored value depends on the attribute it overwrites - self.dt = self.dt/Nref -
+    compounds: the second call with the same argument leaves another object than the first, and every later propagation
+    depends on how often and in which order options were set.  In every set* method of the propagator classes the value
+    assigned to an attribute of self does not read that same attribute (the original quantity is kept separately)."""
+    rid = "C15-E7"
+    n = 0
+    for q in ('quantarhei.qm.propagators.rdmpropagator.ReducedDensityMatrixPropagator',
+              'quantarhei.qm.propagators.svpropagator.StateVectorPropagator',
+              'quantarhei.qm.propagators.poppropagator.PopulationPropagator',
+              'quantarhei.qm.propagators.oqssvpropagator.OQSStateVectorPropagator',
+              'quantarhei.qm.liouvillespace.heom.KTHierarchyPropagator',
+              'quantarhei.qm.liouvillespace.evolutionsuperoperator.EvolutionSuperOperator'):
+        cls = prog.cls(q)
+        for nme, fn in sorted(cls.methods.items()):
+            if not (nme.startswith("set") and len(fn.node.args.args) >= 2):
+                continue
+            prog.consulted.add(fn.relpath)
+            for st in walk_no_nested(fn.node):
+                tg = st.targets if isinstance(st, ast.Assign) else ([st.target] if isinstance(st, ast.AugAssign) else [])
+                for t_ in tg:
+                    if not (isinstance(t_, ast.Attribute) and norm(t_.value) == "self"):
+                        continue
+                    n += 1
+                    selfref = isinstance(st, ast.AugAssign) or any(
+                        isinstance(x, ast.Attribute) and norm(x.value) == "self" and x.attr == t_.attr and isinstance(x.ctx, ast.Load)
+                        for x in ast.walk(st.value))
+                    run.obligation(rid, fn.short, not selfref, key="absolute:" + norm(st)[:50],
+                                   message="%s stores %s, computed from the attribute it overwrites: a second call does not set the option, "
+                                           "it compounds it (for the refinement: the step becomes (previous step)/Nref instead of "
+                                           "(axis step)/Nref) - results depend on the history of the propagator" % (fn.short, norm(st)[:60]),
+                                   loc=fn.loc(st))
+    if n < 8:
+        raise AnalysisError("only %d attribute stores in option setters of the propagators found (8 confirmed)" % n)
 
 
 
